@@ -518,9 +518,13 @@ func (hm *HostMap) unlockedDeleteHostInfo(hostinfo *HostInfo) bool {
 		}
 	}
 
-	delete(hm.Indexes, hostinfo.localIndexId)
-	if len(hm.Indexes) == 0 {
-		hm.Indexes = map[uint32]*HostInfo{}
+	// Same ownership rule for the local index: a repeated delete of a hostinfo that already left the
+	// hostmap must not unregister a newer hostinfo that has since been handed the same index
+	if existing, ok := hm.Indexes[hostinfo.localIndexId]; ok && existing == hostinfo {
+		delete(hm.Indexes, hostinfo.localIndexId)
+		if len(hm.Indexes) == 0 {
+			hm.Indexes = map[uint32]*HostInfo{}
+		}
 	}
 
 	if hm.l.Enabled(context.Background(), slog.LevelDebug) {
@@ -537,7 +541,9 @@ func (hm *HostMap) unlockedDeleteHostInfo(hostinfo *HostInfo) bool {
 	}
 	// Clean up any local relay indexes for which I am acting as a relay hop
 	for _, localRelayIdx := range hostinfo.relayState.CopyRelayForIdxs() {
-		delete(hm.Relays, localRelayIdx)
+		if hm.Relays[localRelayIdx] == hostinfo {
+			delete(hm.Relays, localRelayIdx)
+		}
 	}
 
 	return final
